@@ -99,6 +99,11 @@ func (t *ktr) namedErrValue(e ast.Expr) string {
 	if t.isNilIdent(e) {
 		return "none"
 	}
+	if id, isID := e.(*ast.Ident); isID {
+		if vn, isVar := t.vars[t.info.Uses[id]]; isVar && t.names[vn].k == kErrT {
+			return vn
+		}
+	}
 	u, ok := e.(*ast.UnaryExpr)
 	if !ok || u.Op != token.AND {
 		t.fail(e, "error result `%s` (in this kernel only nil or &T{Name: \"..\", Err: Err*})", exprStr(e))
@@ -107,7 +112,8 @@ func (t *ktr) namedErrValue(e ast.Expr) string {
 	if !ok {
 		t.fail(e, "error result `%s` (in this kernel only nil or &T{Name: \"..\", Err: Err*})", exprStr(e))
 	}
-	cause, name := "", ""
+	causeOnly := !strings.Contains(t.spec.errLean, "×")
+	cause, name, target := "", "", "\"\""
 	for _, el := range cl.Elts {
 		kv, ok := el.(*ast.KeyValueExpr)
 		if !ok {
@@ -115,6 +121,15 @@ func (t *ktr) namedErrValue(e ast.Expr) string {
 		}
 		switch exprStr(kv.Key) {
 		case "Err":
+			if vid, isID := unparen(kv.Value).(*ast.Ident); isID {
+				if vn, isVar := t.vars[t.info.Uses[vid]]; isVar && t.names[vn].k == kErrT && causeOnly {
+					return vn // the cause of a callee, passed through
+				}
+			}
+			if c, tg, ok := t.structCause(kv.Value); ok {
+				cause, target = c, tg
+				continue
+			}
 			id, isID := unparen(kv.Value).(*ast.Ident)
 			if !isID {
 				t.fail(kv, "error cause `%s` that is not a package-level sentinel Err*", exprStr(kv.Value))
@@ -124,22 +139,64 @@ func (t *ktr) namedErrValue(e ast.Expr) string {
 				!types.Identical(v.Type(), types.Universe.Lookup("error").Type()) {
 				t.fail(kv, "error cause `%s` that is not a package-level sentinel Err*", exprStr(kv.Value))
 			}
-			kCauses[id.Name] = true
-			cause = "Cause." + id.Name
+			cause = t.regCause(id.Name)
 		case "Name":
+			if causeOnly {
+				continue
+			}
 			tv := t.info.Types[kv.Value]
 			if tv.Value == nil {
 				t.fail(kv, "argument name `%s` that is not a string constant", exprStr(kv.Value))
 			}
 			name = t.constLit(tv.Value, kType{k: kStr}, kv.Value, false)
 		default:
-			t.fail(kv, "field `%s` of an error literal (only Name and Err)", exprStr(kv.Key))
+			if !causeOnly {
+				t.fail(kv, "field `%s` of an error literal (only Name and Err)", exprStr(kv.Key))
+			}
 		}
+	}
+	if causeOnly {
+		if cause == "" || target != "\"\"" {
+			t.fail(e, "error literal `%s` without a sentinel `Err:`", exprStr(e))
+		}
+		return "(some " + cause + ")"
 	}
 	if cause == "" || name == "" {
 		t.fail(e, "error literal `%s` without `Name:` and `Err:`", exprStr(e))
 	}
+	if strings.Count(t.spec.errLean, "×") == 2 {
+		return "(some (" + cause + ", " + name + ", " + target + "))" // (cause, argument, target of the comparison)
+	}
+	if target != "\"\"" {
+		t.fail(e, "error cause with a target in a kernel whose errors are (cause, argument name) pairs")
+	}
 	return "(some (" + cause + ", " + name + "))"
+}
+
+// structCause: `&ErrT{Target: "x"}` (a cause that is a struct with the name of the bound it was
+// compared with) ↦ (Cause.ErrT, "x")
+func (t *ktr) structCause(e ast.Expr) (string, string, bool) {
+	u, ok := unparen(e).(*ast.UnaryExpr)
+	if !ok || u.Op != token.AND {
+		return "", "", false
+	}
+	cl, ok := u.X.(*ast.CompositeLit)
+	if !ok {
+		return "", "", false
+	}
+	nt, ok := types.Unalias(t.info.Types[cl].Type).(*types.Named)
+	if !ok || !strings.HasPrefix(nt.Obj().Name(), "Err") || len(cl.Elts) != 1 {
+		t.fail(e, "error cause `%s` (only a sentinel Err* or &ErrT{Target: \"..\"})", exprStr(e))
+	}
+	kv, ok := cl.Elts[0].(*ast.KeyValueExpr)
+	if !ok || exprStr(kv.Key) != "Target" {
+		t.fail(e, "error cause `%s` (only a sentinel Err* or &ErrT{Target: \"..\"})", exprStr(e))
+	}
+	tv := t.info.Types[kv.Value]
+	if tv.Value == nil {
+		t.fail(kv, "target `%s` that is not a string constant", exprStr(kv.Value))
+	}
+	return t.regCause(nt.Obj().Name()), t.constLit(tv.Value, kType{k: kStr}, kv.Value, false), true
 }
 
 // canidStmt: the statement forms listed in the header.
